@@ -57,6 +57,9 @@ def case_strategy(unit):
         "tri_alpha": S.fl(55, 125), "orth": st.integers(0, 3).map(lambda i: i == 0),
         "equal_axes": st.integers(0, 5).map(lambda i: i == 0), "special_angle": st.sampled_from([None, None, None, 60.0, 109.47122063449069, 90.0, 120.0]),
         "gap": S.fl(0, 1), "smin_gap": st.one_of(st.none(), S.fl(0, 1)),
+        "edge": st.one_of(st.none(), st.none(), st.tuples(st.sampled_from(["below-next", "above-this"]), S.logfl(2e-9, 1e-6)).map(list)),
+        "cell_scale": st.sampled_from([1.0, 1.0, 1.0, 3.0, 12.0]), "alias": st.integers(0, 5),
+        "near_special": st.one_of(st.none(), st.none(), st.none(), st.tuples(S.logfl(1e-8, 1e-2), st.sampled_from([-1.0, 1.0])).map(lambda t: t[0] * t[1])),
         "byname": st.booleans(), "upper": st.booleans(), "blank": st.booleans(), "name_only": st.booleans(),
         "cell_as": st.sampled_from(["list", "list", "array"]),   # (a tuple cell makes the debug logging of six Laue classes raise TypeError: observed, outside the documented list/array input, not claimed)
         "npseed": st.integers(0, 2 ** 31 - 1), "npseed2": st.integers(0, 2 ** 31 - 1),
@@ -71,7 +74,7 @@ def build(case, max_points=1500):
     """Deterministically turn the drawn numbers into (group, cell, shell, oracle set)."""
     no, ch = GR.SETTINGS[case["setting"]]
     g = GR.group(no, ch)
-    a, b, c = case["abc"]
+    a, b, c = [x * case.get("cell_scale", 1.0) for x in case["abc"]]      # up to ~150 A: small sin(theta)/lambda values
     if case.get("equal_axes"):          # pseudo-symmetric metric: edges exactly equal although the system does not require it
         b = c = a
     ang1 = case["tri_alpha"] if g.crystal_system == "triclinic" and ch != "rhombohedral" else case["ang"][0]
@@ -82,7 +85,18 @@ def build(case, max_points=1500):
             ang1 = sa                      # alpha = 60 (fcc primitive), 109.47 (bcc primitive), 90
         elif g.crystal_system == "monoclinic" and sa in (60.0, 120.0, 90.0):
             ang2 = sa
+    ns = case.get("near_special")
+    if ns is not None and not case["orth"]:
+        # a free angle a hair away from an ideal value (pseudo-symmetric cell): 1e-8 .. 1e-2 degrees off 90 / 60 / 120
+        if ch == "rhombohedral":
+            ang1 = (60.0 if case["alias"] % 2 else 90.0) + ns
+        elif g.crystal_system == "monoclinic":
+            ang2 = (90.0 if case["alias"] % 3 else 120.0) + ns
+        elif g.crystal_system == "triclinic":
+            ang1, ang2 = 90.0 + ns, 90.0 - 0.7 * ns
     cell = GR.conforming_cell(g, a, b, c, ang1, ang2, case["ang"][2], orth=case["orth"])
+    if ns is not None and not case["orth"] and g.crystal_system == "triclinic" and ch != "rhombohedral":
+        cell = [cell[0], cell[1], cell[2], 90.0 + ns, 90.0 - 0.7 * ns, 90.0 + 0.4 * ns]
     cell = [float(x) + 0.0 for x in cell]
     G, Gs, V = O.metric(cell)
     scale = 1.1 if (g.Laue == "-3" and ch == "rhombohedral") else 1.0
@@ -100,6 +114,14 @@ def build(case, max_points=1500):
         return B
     k = gaps[min(len(gaps) - 1, int(case["gap"] * len(gaps)))]
     smax = 0.5 * (us[k] + us[k + 1])
+    edge = case.get("edge")
+    if edge is not None and (us[k + 1] - us[k]) / us[k + 1] > 4 * edge[1]:
+        # bound placed a relative distance delta (>= 2e-9, the property's clearance is 1e-9) from a lattice value instead
+        # of mid-gap: just below the next value (which must stay excluded) or just above this one (which must be included)
+        smax = us[k + 1] * (1 - edge[1]) if edge[0] == "below-next" else us[k] * (1 + edge[1])
+        B.edge = edge[0]
+    else:
+        B.edge = None
     smin = 0.0
     if case["smin_gap"] is not None:
         kk = gaps[gaps <= k]
@@ -115,7 +137,8 @@ def build(case, max_points=1500):
     B.stl_of = dict(zip(map(tuple, Hs.tolist()), ss.tolist()))
     B.laue = g.laue_ops()
     B.ok = True
-    name = g.name
+    al = GR.aliases(no, ch)
+    name = al[case.get("alias", 0) % len(al)] if case.get("alias", 0) else g.name      # own name or any alias key
     if case["upper"]:
         name = name.upper()
     if case["blank"]:
